@@ -3,4 +3,4 @@ From HV Require Import Base.Res Base.Str Gen.SidecarCodes Model.Sidecar.
 Extraction Language OCaml.
 Extraction "../ocaml/build/c08_model.ml"
   force_types validate_sidecar find_refs find_non_matching_braces braces_ok is_ref_char
-  detect_column_type kind_code kind_is_error struct_ok.
+  detect_column_type kind_code kind_is_error struct_ok struct_ok_but_hash.
